@@ -12,9 +12,10 @@ import ast
 from typing import List, Optional, Set
 
 from ..core import rule
-from ..dataflow import DefUse, depends_on
+from ..dataflow import DefUse, depends_on, origins
 from ..program import AnalysisError, dotted, src
 from .storelib import REFUSALS, STORE_MODULES, facts, node_desc
+from .common import loops_over
 
 STORE_WRITE_API = [
     ("xandikos.store.git.GitStore", "import_one"),
@@ -226,7 +227,7 @@ def h1(ctx):
                     d = dotted(c.func) or ""
                     if d not in ("self._get_resource", "ObjectResource"):
                         continue
-                    if fi.name == "_get_resource":
+                    if fi.name == "_get_resource" or ctx.absorbed(fi):
                         continue
                     n_sites += 1
                     du = du or DefUse(cfg)
@@ -239,26 +240,30 @@ def h1(ctx):
                             continue
                         ok = False
                         # the etag must be the listing tuple's own element, not something looked up again
-                        names = [a.id] if isinstance(a, ast.Name) else ([] if idx == 2 else [x.id for x in ast.walk(a) if isinstance(x, ast.Name)])
-                        for nm in names:
-                            for df in du.reaching(n, nm):
-                                if df.kind == "for" and isinstance(df.value, ast.Call) and \
-                                        (dotted(df.value.func) or "").split(".")[-1] in LISTING_CALLS and \
-                                        (dotted(df.value.func) or "").startswith("self.store."):
-                                    ok = True
+
+                        def listed(node_, e_, need_store=True):
+                            for o in origins(du, node_, e_):
+                                if o.kind == "elem" and isinstance(o.leaf, ast.Call) and \
+                                        (dotted(o.leaf.func) or "").split(".")[-1] in LISTING_CALLS and \
+                                        (not need_store or (dotted(o.leaf.func) or "").startswith("self.store.")):
+                                    return True
+                            return False
+
+                        cands = [a] if (isinstance(a, ast.Name) or idx == 2) else [x for x in ast.walk(a) if isinstance(x, ast.Name)]
+                        ok = any(listed(n, x) for x in cands)
                         # `name` compared for equality with a listed name counts as listed
                         if not ok and idx == 0 and isinstance(a, ast.Name):
-                            for (t, pol) in cfg.required_conditions(n):
-                                if pol and isinstance(t, ast.Compare) and len(t.ops) == 1 and isinstance(t.ops[0], ast.Eq):
-                                    sides = [t.left, t.comparators[0]]
-                                    if any(isinstance(s, ast.Name) and s.id == a.id for s in sides):
-                                        other = [s for s in sides if not (isinstance(s, ast.Name) and s.id == a.id)]
-                                        for o in other:
-                                            if isinstance(o, ast.Name):
-                                                for df in du.reaching(n, o.id):
-                                                    if df.kind == "for" and isinstance(df.value, ast.Call) and \
-                                                            (dotted(df.value.func) or "").split(".")[-1] in LISTING_CALLS:
-                                                        ok = True
+                            mine = {(o.kind, o.name, id(o.leaf)) for o in origins(du, n, a)}
+                            for tn in [t_ for t_ in cfg.nodes if t_.kind == "test"]:
+                                t = tn.ast
+                                if not (isinstance(t, ast.Compare) and len(t.ops) == 1 and isinstance(t.ops[0], ast.Eq)):
+                                    continue
+                                if n.id in cfg.reachable([cfg.entry], block_edges=[(tn, m_, l_) for m_, l_ in tn.succ if l_ == "t"]):
+                                    continue   # reaching the call does not require equality
+                                sides = [t.left, t.comparators[0]]
+                                for s1, s2 in (sides, sides[::-1]):
+                                    if {(o.kind, o.name, id(o.leaf)) for o in origins(du, tn, s1)} == mine and listed(tn, s2, need_store=False):
+                                        ok = True
                         if not ok:
                             probs.append("argument %d (`%s`) does not come from a store listing" % (idx, src(a)))
                     obs.append(ctx.ob(not probs, fi.qualname, "%s:%d" % (fi.module.rel, n.lineno),
@@ -269,15 +274,14 @@ def h1(ctx):
     for nm in ("members", "get_member"):
         fi = ctx.own_method("xandikos.web.StoreBasedCollection", nm)
         cfg = ctx.cfg(fi)
-        fors = [n for n in cfg.nodes if n.kind == "for" and isinstance(n.ast.iter, ast.Call)
-                and dotted(n.ast.iter.func) == "self.store.iter_with_etag" and not n.ast.iter.args]
+        fors = loops_over(cfg, "self.store.iter_with_etag", exact=True, no_args=True)
         obs.append(ctx.ob(bool(fors), fi.qualname, fi.where, "enumerates self.store.iter_with_etag()",
                           "listing source is the store iterator",
                           "%s no longer iterates self.store.iter_with_etag()" % nm))
     # sub-collections: listing and lookup consult the same store.subdirectories(), unconditionally
     sc = ctx.own_method("xandikos.web.StoreBasedCollection", "subcollections")
     cfg = ctx.cfg(sc)
-    fors = [n for n in cfg.nodes if n.kind == "for" and isinstance(n.ast.iter, ast.Call) and dotted(n.ast.iter.func) == "self.store.subdirectories"]
+    fors = loops_over(cfg, "self.store.subdirectories", exact=True)
     uncond = bool(fors) and cfg.exit.id not in cfg.reachable([cfg.entry], block_nodes=fors)
     obs.append(ctx.ob(uncond, sc.qualname, sc.where, "subcollections() enumerates store.subdirectories() on every path",
                       "no early exit before the enumeration",
